@@ -569,9 +569,10 @@ def _r8(ctx):
         if not sk.func(fname):
             ctx.missing("R8", f"{label}:{fname}", (rel, 0), f"function {fname} not found in the specialised template")
             continue
-        loops = [(it, off) for it, off in sk.items_in(fname) if it[0] == "for" and J.path(J.unfilter(it[2])[0]) == "ode.fex"]
+        FEXSEQ = ("attr", ("name", "ode"), "fex")
+        loops = [(it, off) for it, off in sk.items_in(fname) if it[0] == "for" and any(x == FEXSEQ for x in _subterms(it[2]))]
         key = f"{label}:{fname}:for ode.fex"
-        if not loops and any(x == ("attr", ("name", "ode"), "fex") for it_, off in sk.items_in(fname) for x in _subterms(it_)):
+        if not loops and any(x == FEXSEQ for it_, off in sk.items_in(fname) for x in _subterms(it_)):
             ctx.unrec("R8", key, (rel, 0), f"{fname} uses ode.fex, but not in a `for eq in ode.fex` loop: how the equations are pasted is not understood")
             continue
         if len(loops) != 1:
@@ -580,12 +581,15 @@ def _r8(ctx):
             continue
         it = loops[0][0]
         base, fs = J.unfilter(it[2])
-        if fs or it[7] is not None:
+        if (fs and base == FEXSEQ) or it[7] is not None:
             ctx.bad("R8", key, (rel, it[5]), f"the loop over ode.fex is filtered/sliced: {J.show(it[2])}" + (f" if {J.show(it[7])}" if it[7] else ""),
                     expected="for eq in ode.fex", found=J.show(it[2]))
             continue
-        if it[2][0] != "attr":
+        if it[2][0] == "item" and it[2][1] == FEXSEQ:
             ctx.bad("R8", key, (rel, it[5]), f"the loop iterates {J.show(it[2])}, not ode.fex itself")
+            continue
+        if it[2] != FEXSEQ:
+            ctx.unrec("R8", key, (rel, it[5]), f"the loop iterates {J.show(it[2])}: how it visits ode.fex is not understood")
             continue
         var = it[1]
         # `{% set v = eq | filter %}` then `{{ v | .. }}`, and one-expression macros used as values, are the same chain of filters
